@@ -115,6 +115,14 @@ def _aes(shard, ctx, col, np):
     exp_full = formula(pool, np.arange(256))
     col.nontrivial += int(exp_full.size - exp_full[:, 0].size)
     _compare(col, 'C07/aes/%s.%s/hypotheses' % (ns, cls), got, exp_full, {'ns': ns, 'cls': cls, 'config': 'default'}, 'all (byte, guess) pairs')
+    # byte values held in a wider integer dtype are legal input (np.array(list), randint without dtype, ...) and must give the same hypotheses
+    for dt in ('int64', 'uint16', 'int32'):
+        try:
+            got_w = sf(**{tagname: pool.astype(dt)})
+        except Exception as e:
+            col.violation('C07/aes/%s.%s/raised' % (ns, cls), '%s data: %s: %s' % (dt, type(e).__name__, e), {'ns': ns, 'cls': cls, 'dtype': dt}); continue
+        col.transitions += 1
+        _compare(col, 'C07/aes/%s.%s/hypotheses-wide-dtype' % (ns, cls), got_w, exp_full, {'ns': ns, 'cls': cls, 'config': 'default', 'dtype': dt}, 'all (byte, guess) pairs, data stored as %s' % dt)
     # (i) + expected key for every key size
     for nk in (16, 24, 32):
         keys = [np.arange(nk, dtype=np.uint8), rng.randint(0, 256, nk).astype(np.uint8), rng.randint(0, 256, nk).astype(np.uint8)]
@@ -222,6 +230,14 @@ def _des(shard, ctx, col, np):
     exp_full = formula(pool, np.arange(64))
     col.nontrivial += int(exp_full.size - exp_full[:, 0].size)
     _compare(col, 'C07/des/%s.%s/hypotheses' % (ns, cls), got, exp_full, {'ns': ns, 'cls': cls, 'config': 'default'}, 'all (E word, guess, L nibble) combinations')
+    for dt in ('int64', 'uint16'):
+        sub_w = pool[::5]
+        try:
+            got_w = sf(**{tagname: sub_w.astype(dt)})
+        except Exception as e:
+            col.violation('C07/des/%s.%s/raised' % (ns, cls), '%s data: %s: %s' % (dt, type(e).__name__, e), {'ns': ns, 'cls': cls, 'dtype': dt}); continue
+        col.transitions += 1
+        _compare(col, 'C07/des/%s.%s/hypotheses-wide-dtype' % (ns, cls), got_w, exp_full[::5], {'ns': ns, 'cls': cls, 'config': 'default', 'dtype': dt}, 'byte values stored as %s' % dt)
     # (i) true key vs the reference cipher trace
     keys = [np.frombuffer(bytes.fromhex('133457799BBCDFF1'), dtype=np.uint8), rng.randint(0, 256, 8).astype(np.uint8), rng.randint(0, 256, 8).astype(np.uint8)]
     pts = np.vstack([pool[::37], rng.randint(0, 256, (24, 8)).astype(np.uint8)])
